@@ -367,7 +367,8 @@ func (k *walker) onConn(e Ev) *Violation {
 	if len(next) == 0 {
 		sort.SliceStable(rej, func(i, j int) bool { return rej[i].rank > rej[j].rank })
 		r := rej[0]
-		return &Violation{Rule: r.rule, Shape: r.shape, Text: r.text, Seq: e.Seq}
+		via := "delivered-" + strings.ReplaceAll(e.Note, " ", "-")
+		return &Violation{Rule: r.rule, Shape: r.shape + "/" + via, Text: r.text, Seq: e.Seq}
 	}
 	k.worlds = k.dedup(next)
 	k.st.Connected++
